@@ -160,7 +160,10 @@ Section Decomp.
   (* the plan, cut into its pieces *)
   Definition PRE := plan_pre fs0 tens sc.
   Definition TENS := tensors_acts tens (sc_chunk sc) (sc_cb sc) (sc_cbbase sc) (sc_tensors sc).
-  Definition B1 := PSeq (PActs [AOpenW tmpf]) (PTry (PActs TENS) (PActs [AClose])).
+  Definition B1 := writer tens sc tmpf.
+  Definition B1ser := PSeq (PActs [AOpenW tmpf]) (PTry (PActs TENS) (PActs [AClose])).
+  Lemma B1_serial : sc_par sc = None -> B1 = B1ser.
+  Proof. intros H. unfold B1, writer. rewrite H. reflexivity. Qed.
   Definition TAILPRE :=
     map (rel_act sc) ov ++ AExists dest :: (if exists_ fs0 dest then [ACopymode dest tmpf] else []).
   Definition FIN := [ARemove tmpf; ARmdir tmpd].
@@ -186,10 +189,23 @@ Section Decomp.
         destruct (has_nul (tpath tens h)); [reflexivity|]. destruct (is_alias fs0 sc (tpath tens h)); reflexivity.
       + simpl. unfold okA. simpl. fold tmpd. rewrite path_eqb_refl. reflexivity.
   Qed.
+  Lemma okA_openw : okA (AOpenW tmpf) = true.
+  Proof. unfold okA. simpl. rewrite path_eqb_refl. reflexivity. Qed.
+  Lemma okA_openrw : okA (AOpenRW tmpf) = true.
+  Proof. unfold okA. simpl. rewrite path_eqb_refl. reflexivity. Qed.
+
   Lemma B1_okA : prog_all okA B1 = true.
   Proof.
-    unfold B1. simpl. unfold okA at 1. simpl. rewrite path_eqb_refl. simpl.
-    rewrite andb_true_r. eapply forallb_impl; [apply wr_okA | apply tensors_wr].
+    unfold B1, writer. destruct (sc_par sc) as [total|].
+    - unfold writer_parallel. cbn [prog_all forallb]. fold dest. fold tmpf. rewrite okA_openw. cbn [andb].
+      destruct (sc_tensors sc) as [|[off0 sp0] r]; [reflexivity|]. cbn [prog_all forallb]. rewrite okA_openrw.
+      rewrite (forallb_impl _ _ _ wr_okA (cb_wr _ _)). cbn [andb].
+      apply andb_true_intro; split; [reflexivity|].
+      apply andb_true_intro; split; [|reflexivity]. apply andb_true_intro; split; [reflexivity|].
+      rewrite forallb_app.
+      apply andb_true_intro; split; (eapply forallb_impl; [apply wr_okA|]); [apply tofile_wr|apply tensors_wr].
+    - unfold writer_serial. cbn [prog_all forallb]. fold dest. fold tmpf. rewrite okA_openw. cbn [andb].
+      rewrite andb_true_r. eapply forallb_impl; [apply wr_okA | apply tensors_wr].
   Qed.
   Lemma TAILPRE_okA : forallb okA TAILPRE = true.
   Proof.
